@@ -70,31 +70,25 @@ def prod(
         polynomial([[[q0**3],
                      [q1**3+q0*q1**2]]])
         >>> numpoly.prod(poly, axis=[1, 2])
-        polynomial([[[q0**3*q1**3+q0**4*q1**2]]])
+        polynomial([q0**3*q1**3+q0**4*q1**2])
 
     """
     a = numpoly.aspolynomial(a)
     assert out is None
-    if keepdims:
-        if axis is None:
-            out = _prod(numpoly.reshape(a, -1), axis=0)
-            out = numpoly.reshape(out, (1,) * len(a.shape))
-            return out
-        elif isinstance(axis, int):
-            axis = [axis]
-
     if axis is None:
         out = _prod(numpoly.reshape(a, -1), axis=0)
+        if keepdims:
+            out = numpoly.reshape(out, (1,) * len(a.shape))
+        return out
 
-    elif isinstance(axis, int):
-        out = _prod(a, axis=axis)
-
-    else:
-        for idx in axis:
-            a = _prod(a, axis=idx)
-            a = a[(slice(None),) * idx + (numpy.newaxis,)]
-        out = a
-
+    axes = (axis,) if isinstance(axis, (int, numpy.integer)) else tuple(axis)
+    axes = sorted({idx + a.ndim if idx < 0 else idx for idx in axes})
+    out = a
+    for idx in reversed(axes):
+        out = _prod(out, axis=idx)
+    if keepdims:
+        for idx in axes:
+            out = out[(slice(None),) * idx + (numpy.newaxis,)]
     return out
 
 
